@@ -292,6 +292,14 @@ def run_impl(pystog, case):
         st = pystog.StoG()
         probe = dict(info)
         probe["data"] = np.array([[1.0, 2.0, 3.0], [1.0, 1.1, 0.9]])
+        if kind == 4:      # ... also when the entry's window happens to select no point at all
+            empty = dict(info)
+            empty["data"] = np.array([[100.0, 101.0, 102.0], [1.0, 1.1, 0.9]])
+            try:
+                pystog.StoG().add_dataset(empty)
+                return {"fileflag": got + [99.0], "accepted_name": info["ReciprocalFunction"] + " (with a window that selects no point)"}
+            except ValueError:
+                pass
         try:
             st.add_dataset(probe)
         except ValueError as e:
